@@ -214,6 +214,84 @@ UNITS += [
 """),
 ]
 
+UNITS += [
+    # the merge loop itself: k sorted inputs, one heap; groups of equal names are handed to merge_nodes in name order
+    Unit(name="merge_loop", file=TR, kind="block", within="pub(crate) fn merge_trees(",
+         anchor="let mut nodes = Vec::new();\n    loop {", block_end="    let (id, size) = save(tree)?;\n    if trees.contains(&id) {",
+         attrs="#[verifier::exec_allows_no_decreases_clause]",
+         block_sig="fn merge_loop(tree_iters: &mut Vec<VNodeIter>, elems: &mut VHeap, tree0: MTree, node0: MNode, num0: usize, summary: &mut SummaryM) -> (r: RusticResult<MTree>)",
+         block_tail="    Ok(tree)",
+         functions=["blob::tree::merge_trees (the k-way merge loop: heap of the inputs' heads, groups of equal names)"],
+         rewrites=[
+             Rw(r"tree_iters\[(\w+)\]\.next\(\)", r"vnext_of(tree_iters, \1)", regex=True, why="IndexMut + Iterator::next on the num-th input -> stub: head of its remaining nodes"),
+             Rw("merge_nodes(be, index, nodes, cmp, save, summary)?", "vmerge_nodes(nodes, summary)?", count=None, why="merge_nodes (recursion into sub-directories) -> stub carrying the postcondition of unit merge_nodes_winner"),
+             Rw("node.name != new_node.name", "vname_ne(&node.name, &new_node.name)", why="String inequality -> stub"),
+             Rw(r"\((\w+), (\w+)\) = \((\w+), (\w+)\);", r"\1 = \3; \2 = \4;", regex=True, count=None, why="destructuring assignment -> two assignments"),
+         ],
+         contract="""
+    requires
+        num0 < old(tree_iters)@.len(),
+        tree0.nodes@.len() == 0,
+        // every input tree is sorted by file name (strictly: a tree lists a name once) -- ASSUMED of stored trees
+        forall|j: int| 0 <= j < old(tree_iters)@.len() ==> strictly_sorted((#[trigger] old(tree_iters)@[j]).rem@),
+        // state after the initial fill + pop: `node` is the smallest head and comes from input `num`; the heap holds the other heads
+        forall|a: int| 0 <= a < old(tree_iters)@[num0 as int].rem@.len() ==> fname_lt(fn_of(node0), fn_of(#[trigger] old(tree_iters)@[num0 as int].rem@[a])),
+        heap_ok(old(elems).items@, old(tree_iters)@, num0 as int), heads_present(old(elems).items@, old(tree_iters)@, num0 as int),
+        forall|i: int| 0 <= i < old(elems).items@.len() ==> !fname_lt(fn_of((#[trigger] old(elems).items@[i]).0), fn_of(node0)),
+    ensures
+        // the merged directory lists every name ONCE, in file-name order ...
+        /*@merged_names_strictly_increasing*/ r matches Ok(t) ==> strictly_sorted(t.nodes@),
+        // ... and every name of every input is in it (union)
+        /*@every_input_name_is_listed*/ r matches Ok(t) ==> forall|f: FileName| (f == fn_of(node0) || in_heap(old(elems).items@, f) || in_iters(old(tree_iters)@, f)) ==> in_seq(t.nodes@, f),
+""",
+         loops={1: """
+        invariant_except_break
+            forall|i: int| 0 <= i < nodes@.len() ==> fn_of(#[trigger] nodes@[i]) == fn_of(node),
+            forall|i: int| 0 <= i < tree.nodes@.len() ==> fname_lt(fn_of(#[trigger] tree.nodes@[i]), fn_of(node)),
+            forall|f: FileName| (f == fn_of(node0) || in_heap(old(elems).items@, f) || in_iters(old(tree_iters)@, f))
+                ==> (in_seq(tree.nodes@, f) || f == fn_of(node) || in_heap(elems.items@, f) || in_iters(tree_iters@, f)),
+        invariant
+            num < tree_iters@.len(), tree_iters@.len() == old(tree_iters)@.len(),
+            forall|j: int| 0 <= j < tree_iters@.len() ==> strictly_sorted((#[trigger] tree_iters@[j]).rem@),
+            forall|a: int| 0 <= a < tree_iters@[num as int].rem@.len() ==> fname_lt(fn_of(node), fn_of(#[trigger] tree_iters@[num as int].rem@[a])),
+            heap_ok(elems.items@, tree_iters@, num as int), heads_present(elems.items@, tree_iters@, num as int),
+            forall|i: int| 0 <= i < elems.items@.len() ==> !fname_lt(fn_of((#[trigger] elems.items@[i]).0), fn_of(node)),
+            strictly_sorted(tree.nodes@),
+        ensures
+            strictly_sorted(tree.nodes@),
+            forall|f: FileName| (f == fn_of(node0) || in_heap(old(elems).items@, f) || in_iters(old(tree_iters)@, f)) ==> in_seq(tree.nodes@, f),
+"""},
+         hints=[("before", "let mut nodes = Vec::new();", "    let mut tree = tree0; let mut node = node0; let mut num = num0; proof { axiom_fname_total_order(); axiom_unesc_injective(); }"),
+                ("loop_start", "1", '        proof { axiom_fname_total_order(); axiom_unesc_injective(); }\n        let ghost it0 = tree_iters@; let ghost h0 = elems.items@; let ghost out0 = tree.nodes@; let ghost nd0 = node; let ghost grp0 = nodes@;'),
+                ("after", "elems.push(SortedNode(next_node, num));", '            proof {\n                assert(it0[num as int].rem@[0] == next_node);\n                assert forall|a: int| 0 <= a < tree_iters@[num as int].rem@.len() implies fname_lt(fn_of(next_node), fn_of(#[trigger] tree_iters@[num as int].rem@[a])) by {\n                    assert(tree_iters@[num as int].rem@[a] == it0[num as int].rem@[a + 1]);\n                }\n                assert(elems.items@[h0.len() as int] == (next_node, num));\n                assert(fname_lt(fn_of(node), fn_of(it0[num as int].rem@[0])));\n                assert(!fname_lt(fn_of(next_node), fn_of(node)));\n                assert forall|i: int| 0 <= i < elems.items@.len() implies !fname_lt(fn_of((#[trigger] elems.items@[i]).0), fn_of(node)) by {\n                    if i < h0.len() { assert(elems.items@[i] == h0[i]); }\n                }\n            }'),
+                ("before", "match elems.pop() {", '        let ghost it1 = tree_iters@; let ghost h1 = elems.items@;\n        proof {\n            assert forall|j: int| 0 <= j < it1.len() implies strictly_sorted((#[trigger] it1[j]).rem@) by {\n                if j == num { assert forall|a: int, b: int| 0 <= a < b < it1[j].rem@.len() implies fname_lt(fn_of(it1[j].rem@[a]), fn_of(it1[j].rem@[b])) by {\n                    if it0[j].rem@.len() > 0 { assert(it1[j].rem@[a] == it0[j].rem@[a + 1]); assert(it1[j].rem@[b] == it0[j].rem@[b + 1]); }\n                } } else { assert(it1[j] == it0[j]); }\n            }\n            assert(heap_ok(h1, it1, -1)) by {\n                assert forall|i: int| 0 <= i < h1.len() implies 0 <= (#[trigger] h1[i]).1 < it1.len() && h1[i].1 != -1\n                    && forall|a: int| 0 <= a < it1[h1[i].1 as int].rem@.len() ==> fname_lt(fn_of(h1[i].0), fn_of(#[trigger] it1[h1[i].1 as int].rem@[a])) by {\n                    if i < h0.len() { assert(h1[i] == h0[i]); assert(it1[h0[i].1 as int] == it0[h0[i].1 as int]); }\n                }\n                assert forall|i: int, k: int| 0 <= i < k < h1.len() implies (#[trigger] h1[i]).1 != (#[trigger] h1[k]).1 by {\n                    if k < h0.len() { assert(h1[i] == h0[i]); assert(h1[k] == h0[k]); } else { assert(h1[i] == h0[i]); }\n                }\n            }\n            assert(heads_present(h1, it1, -1)) by {\n                assert forall|j: int| 0 <= j < it1.len() && j != -1 && (#[trigger] it1[j]).rem@.len() > 0 implies exists|i: int| 0 <= i < h1.len() && (#[trigger] h1[i]).1 == j by {\n                    if j == num { assert(h1[h0.len() as int].1 == j); }\n                    else { assert(it1[j] == it0[j]); let i = choose|i: int| 0 <= i < h0.len() && (#[trigger] h0[i]).1 == j; assert(h1[i] == h0[i]); }\n                }\n            }\n            assert forall|f: FileName| in_heap(h0, f) || in_iters(it0, f) implies in_heap(h1, f) || in_iters(it1, f) by {\n                if in_heap(h0, f) { let i = choose|i: int| 0 <= i < h0.len() && fn_of((#[trigger] h0[i]).0) == f; assert(h1[i] == h0[i]); }\n                else {\n                    let j = choose|j: int| 0 <= j < it0.len() && in_seq((#[trigger] it0[j]).rem@, f);\n                    let a = choose|a: int| 0 <= a < it0[j].rem@.len() && fn_of(#[trigger] it0[j].rem@[a]) == f;\n                    if j == num {\n                        if a == 0 { assert(fn_of(h1[h0.len() as int].0) == f); }\n                        else { assert(it1[j].rem@[a - 1] == it0[j].rem@[a]); assert(in_seq(it1[j].rem@, f)); }\n                    } else { assert(it1[j] == it0[j]); assert(in_seq(it1[j].rem@, f)); }\n                }\n            }\n        }'),
+                ("before", "break;", '                proof {\n                    lemma_group_name(grp0, nd0, grp0.push(nd0), tree.nodes@[out0.len() as int]);\n                    assert forall|a: int, b: int| 0 <= a < b < tree.nodes@.len() implies fname_lt(fn_of(tree.nodes@[a]), fn_of(tree.nodes@[b])) by {\n                        if b < out0.len() { assert(tree.nodes@[a] == out0[a] && tree.nodes@[b] == out0[b]); } else { assert(tree.nodes@[a] == out0[a]); }\n                    }\n                    assert forall|f: FileName| (f == fn_of(node0) || in_heap(old(elems).items@, f) || in_iters(old(tree_iters)@, f)) implies in_seq(tree.nodes@, f) by {\n                        assert(!in_heap(h1, f));\n                        assert(!in_iters(it1, f)) by { if in_iters(it1, f) { let j = choose|j: int| 0 <= j < it1.len() && in_seq((#[trigger] it1[j]).rem@, f); assert(it1[j].rem@.len() > 0); } }\n                        if in_seq(out0, f) { let i = choose|i: int| 0 <= i < out0.len() && fn_of(#[trigger] out0[i]) == f; assert(tree.nodes@[i] == out0[i]); }\n                        else { assert(fn_of(tree.nodes@[out0.len() as int]) == f); }\n                    }\n                }'),
+                ("after", "                nodes = Vec::new();", '                proof { lemma_after_pop(h1, elems.items@, it1, new_node, new_num);\n                    lemma_group_name(grp0, nd0, grp0.push(nd0), tree.nodes@[out0.len() as int]);\n                    assert(fn_of(nd0) != fn_of(new_node));\n                    assert(fname_lt(fn_of(nd0), fn_of(new_node)));\n                    assert forall|a: int, b: int| 0 <= a < b < tree.nodes@.len() implies fname_lt(fn_of(tree.nodes@[a]), fn_of(tree.nodes@[b])) by {\n                        if b < out0.len() { assert(tree.nodes@[a] == out0[a] && tree.nodes@[b] == out0[b]); } else { assert(tree.nodes@[a] == out0[a]); }\n                    }\n                    assert forall|i: int| 0 <= i < tree.nodes@.len() implies fname_lt(fn_of(#[trigger] tree.nodes@[i]), fn_of(new_node)) by {\n                        if i < out0.len() { assert(tree.nodes@[i] == out0[i]); }\n                    }\n                    assert forall|f: FileName| (f == fn_of(node0) || in_heap(old(elems).items@, f) || in_iters(old(tree_iters)@, f))\n                        implies (in_seq(tree.nodes@, f) || f == fn_of(new_node) || in_heap(elems.items@, f) || in_iters(tree_iters@, f)) by {\n                        if in_seq(out0, f) { let i = choose|i: int| 0 <= i < out0.len() && fn_of(#[trigger] out0[i]) == f; assert(tree.nodes@[i] == out0[i]); }\n                        else if f == fn_of(nd0) { assert(fn_of(tree.nodes@[out0.len() as int]) == f); }\n                    }\n                }'),
+                ("after", "Some(SortedNode(new_node, new_num)) => {", '                proof { lemma_after_pop(h1, elems.items@, it1, new_node, new_num);\n                    assert(fn_of(new_node) == fn_of(nd0));\n                    assert forall|i: int| 0 <= i < grp0.push(nd0).len() implies fn_of(#[trigger] grp0.push(nd0)[i]) == fn_of(new_node) by { if i < grp0.len() { assert(grp0.push(nd0)[i] == grp0[i]); } }\n                }'),
+         ],
+         ),
+]
+
+UNITS += [
+    Unit(name="merge_nodes_winner", file=TR, kind="block", within="pub(crate) fn merge_nodes(",
+         anchor="let mut node = nodes.into_iter().max_by(|n1, n2| cmp(n1, n2)).unwrap();", block_end="@fn_end",
+         block_sig="fn merge_nodes_winner(nodes: Vec<MNode>, trees: Vec<TreeId>, summary: &mut SummaryM) -> (r: RusticResult<MNode>)",
+         block_tail="",
+         functions=["blob::tree::merge_nodes (after the collection of the sub-directories: winner of the group, its subtree replaced by the merge)"],
+         rewrites=[
+             Rw("nodes.into_iter().max_by(|n1, n2| cmp(n1, n2)).unwrap()", "vmax_by_cmp(nodes)", why="Iterator::max_by with the caller's ordering -> stub: one of the nodes"),
+             Rw("merge_trees(be, index, &trees, cmp, save, summary)?", "vmerge_subtrees(&trees, summary)?", why="recursion into the sub-directories -> stub"),
+         ],
+         contract="""
+    requires nodes@.len() > 0, old(summary).files_unmodified < u64::MAX, old(summary).total_files_processed < u64::MAX,
+        forall|i: int| 0 <= i < nodes@.len() ==> old(summary).total_bytes_processed + (#[trigger] nodes@[i]).meta.size <= u64::MAX,
+    ensures
+        // the merged entry is one of the conflicting entries; only a directory's subtree is replaced (by the merge of the sub-directories)
+        /*@winner_is_one_of_the_group*/ r matches Ok(n) ==> exists|i: int| 0 <= i < nodes@.len() && n.name == (#[trigger] nodes@[i]).name && n.meta == nodes@[i].meta && n.dir == nodes@[i].dir
+            && (!n.dir ==> n == nodes@[i]),
+"""),
+]
+
 KANI = []
 META = {"not_covered": [
     "merge (blob::tree::merge_trees / merge_nodes): local trait impls, BinaryHeap, `&impl Fn` parameters, mutual recursion",
